@@ -17,6 +17,11 @@ CHECKS = {
          "Every subset of a 10-key universe (x3 loci) and of an 8-key mixed-length universe is loaded into a real Cache and queried with every 1-byte key plus shorter/longer keys: ForEach must visit each entry once in non-decreasing XOR distance, Closest must be a minimum, ForEachCloser/ForEachMatching must equal the brute-force sets; DHTNode.ListNodeInfos/HandleGet.Closer/HandleFindNode likewise over every subset of 7 peers; the comparison laws over all triples (and quadruples for transitivity) of byte strings of length <= 2 over {00,01,7f,80,ff}.",
          "Longer keys and larger contents than the enumerated universes (the code is length-generic: loops over bytes).",
          "5/C19", "seqmc"),
+ "C13": ("model_checking",
+         "controlled-scheduler exploration (preemption-bounded stateless DFS) of the real TellHub/AskHub/Queue; porcupine as per-history oracle for Queue",
+         "The real hubs.go/queue.go (channels, selects, sync.Once rewritten to scheduler-owned shims by the AST instrumenter) are driven by 1-2 producers, 1-2 receivers, cancellers, purger and closer; every schedule with <=2 (quick) / <=4 (thorough) preemptions is executed and its complete call/return/callback history checked against the rendezvous specification (exactly-once hand-off, success only after the callback finished, error only if unseen, cancelled callers not parked at quiescence, no stranded message while a live receiver waits) and, for Queue, linearizability against a bounded FIFO.",
+         "Scheduling points at channel/select/lock/atomic operations (sequential consistency between them); udpswarm.Receive's cancellation is outside the scheduler (not yet covered).",
+         "5/C13", "gosched"),
  "C20": ("model_checking",
          "exhaustive enumeration of environment answers (lazy choice tree) to the real iterative DHT operations",
          "For every operation (find/join/get/put), every initial peer subset, three keys and both MinAccepted settings, every behaviour of every contacted node (any subset of the universe incl. itself and a fabricated zero id as peer list, an error, an enormous repeated list; accept/refuse; no/valid/invalid value) is enumerated as a choice tree and each leaf is one complete run of the real DHTFindNode/DHTJoin/DHTGet/DHTPut, checked for at-most-once contact, termination, no panic and truthful results.",
